@@ -86,10 +86,11 @@ class TaskVal:
     def complete(self, it):
         """Mark done and run/schedule callbacks (callbacks are separate activations: recorded)."""
         self.done = True
+        me = getattr(self, 'owner', self)
         for cb in list(self.callbacks):
-            it.ctx.ghost.setdefault('scheduled_callbacks', []).append((cb, self))
+            it.ctx.ghost.setdefault('scheduled_callbacks', []).append((cb, me))
             if self.aio.run_callbacks_inline:
-                it.call(cb, [self], {})
+                it.call(cb, [me], {})
 
     def pyvc_getattr(self, it, name):
         def native(fn):
